@@ -170,6 +170,11 @@ SPELL_CLASSES = [
     ("kelvin", False, lambda v, pw: "PAKS " + pw),
     ("long_s", False, lambda v, pw: "paſs " + pw),
     ("glued", False, lambda v, pw: v + pw),
+    # spellings that are NOT "pass" under str.lower() but are under other caseless comparisons (casefold, NFKC)
+    ("long_s_twice", False, lambda v, pw: "PAſſ " + pw),
+    ("long_s_mixed", False, lambda v, pw: "PaſS " + pw),
+    ("sharp_s", False, lambda v, pw: "paß " + pw),
+    ("fullwidth", False, lambda v, pw: "ｐａｓｓ " + pw),
 ]
 
 OUTCOMES = ["accepted", "rejected", "pass_first", "pass_twice", "after_nopw_login", "unknown_user", "re_user"]
@@ -494,6 +499,8 @@ def gen_session_cases(ctx, scale, oracle_only=False):
 
 def case_public(c):
     d = {k: c[k] for k in ("kind", "users", "shape", "spelling", "outcome", "canaries") if k in c}
+    if len(c.get("pw", "")) < 5000:
+        d["pw"] = c.get("pw", "")
     if "lines" in c:
         d["lines"] = [l if len(l) < 400 else l[:60] + "...(%d chars)" % len(l) for l in c["lines"]]
         d["lines_full"] = c["lines"] if all(len(l) < 5000 for l in c["lines"]) else None
@@ -503,7 +510,7 @@ def case_public(c):
     return d
 
 
-def judge(c, records):
+def judge(c, records, replies=None):
     """oracle on one session; returns list of (signature, what)"""
     out = []
     hits = canary_hits(records, c["canaries"])
@@ -514,6 +521,16 @@ def judge(c, records):
                 hits[0][4], hits[0][0], hits[0][2], hits[0][3])))
         return out
     if not c["in_scope"]:
+        # a spelling the server is not expected to take for PASS - unless it DID: the line was answered like the
+        # PASS command (230 / 530), so what it carried was used as a password and must not be in any record
+        idx = [i for i, l in enumerate(c.get("lines", [])) if c["pw"] and l.endswith(c["pw"]) and l.lstrip().partition(" ")[0].lower() != "pass"]
+        rep = replies if isinstance(replies, list) else []
+        taken = [i for i in idx if i + 1 < len(rep) and rep[i + 1][:3] in (b"230", b"530")]
+        if not (taken and hits):
+            return out
+        h = hits[0]
+        out.append(("C20:canary", "the line %r was answered %s - taken for the PASS command - and its password token %r appears in a %s record of %s (%s): %r" % (
+            c["lines"][taken[0]][:40], rep[taken[0] + 1][:3].decode(), h[4], h[1], h[0], h[2], h[3])))
         return out
     if hits:
         h = hits[0]
@@ -583,7 +600,7 @@ def _run(ctx, oracle_only=False, scale=1):
         res.count("records_seen", len(records))
         if not (c["shape"] == "bare" and c["verb"] == "PASS" and c["outcome"] == "accepted"):
             res.distinct.add((c["kind"], c["spelling"], c["shape"], c["outcome"], c["verb"] if c["in_scope"] else ""))
-        for sig, what in judge(c, records):
+        for sig, what in judge(c, records, info):
             res.oracle_failures.append({"input": case_public(c), "what": what, "signature": sig})
         if not c["in_scope"] and c["shape"] != "lf_inside" and canary_hits(records, c["canaries"]):
             noted += 1
@@ -668,12 +685,13 @@ def _case_from_public(d):
             pw = d["login_pw_repeat"][0] * d["login_pw_repeat"][1]
         c["login"] = (d["login"][0], pw)
     c["users"] = [tuple(u) for u in d["users"]]
+    c.setdefault("pw", "")
     c["in_scope"] = d["spelling"] in ("sp1", "sp2", "client") and d["shape"] != "lf_inside"
     return c
 
 
 def replay(ctx, doc):
-    if doc["failure"]["input"].get("kind") in ("scripted-login", "encoding-mismatch"):
+    if doc["failure"]["input"].get("kind") in ("scripted-login", "encoding-mismatch", "limit-refusal", "user-manager-under-with_timeout"):
         from props import c20_extra
 
         r = c20_extra.run(ctx)
@@ -693,7 +711,7 @@ def replay(ctx, doc):
     records, info = run_sessions([c])[0]
     for r in records:
         print("   ", r[0], r[1], r[2], repr(r[3][:160]))
-    verdict = judge(c, records)
+    verdict = judge(c, records, info)
     print("oracle:", verdict)
     return bool(verdict)
 
@@ -701,4 +719,4 @@ def replay(ctx, doc):
 def probe_known(ctx, finding):
     c = _case_from_public(finding["replay"])
     records, info = run_sessions([c])[0]
-    return any(sig == finding["signature"] for sig, _ in judge(c, records))
+    return any(sig == finding["signature"] for sig, _ in judge(c, records, info))
